@@ -309,7 +309,12 @@ func (ex *Exec) callModified(in ssa.CallInstruction, ms *modSet) {
 				}
 			}
 		case "copy":
-			ms.all = true
+			// the executor writes the copied contents back to the cell dst was loaded from
+			if u, ok := c.Args[0].(*ssa.UnOp); ok && u.Op == token.MUL {
+				ex.rootOfAddr(u.X, ms)
+			} else {
+				ms.all = true
+			}
 		}
 		return
 	}
@@ -821,6 +826,7 @@ func (ex *Exec) finish() {
 		}
 		o := vc.oblige("post", fmt.Sprintf("post:%s#%s", ex.con.Name, name), TTrue, And(parts...), ex.pos(ex.fn.Pos()))
 		o.SetNote(en.Src)
+		o.SetOnly(en.Only)
 	}
 	// frame: every heap written must be unchanged on pre-existing cells, except where `modifies` allows it
 	if !ex.con.NoFrame {
